@@ -1321,6 +1321,11 @@ int QSexact_verify (
           * this is only done to get approximate primal and dual solution corresponding to the given basis 
           */
          p_dbl = QScopy_prob_mpq_dbl(p_mpq, "dbl_problem");
+         if (!p_dbl)
+         {
+            rval = 1;
+            goto CLEANUP;
+         }
    
          dbl_QSload_basis(p_dbl, basis);
          rval = dbl_ILLeditor_solve(p_dbl, DUAL_SIMPLEX);
@@ -1384,6 +1389,11 @@ int QSexact_verify (
           * something happens with the basis... if we do not set up the dbl-prob (?) ????????????????????????
           */
          p_dbl = QScopy_prob_mpq_dbl(p_mpq, "dbl_problem");
+         if (!p_dbl)
+         {
+            rval = 1;
+            goto CLEANUP;
+         }
          dbl_QSload_basis(p_dbl, basis);
 
          x_mpq = mpq_EGlpNumAllocArray(p_mpq->qslp->ncols);
@@ -1476,6 +1486,14 @@ int QSexact_solver (mpq_QSdata * p_mpq,
 		QSlog("Trying double precision");
 	}
 	p_dbl = QScopy_prob_mpq_dbl (p_mpq, "dbl_problem");
+	if (!p_dbl)
+	{
+		/* the copy refuses what does not survive the conversion (a positive time
+		 * limit that is zero as a double, for one) */
+		QSlog("could not make the double precision copy of the problem");
+		rval = 1;
+		goto CLEANUP;
+	}
 	if(__QS_SB_VERB <= DEBUG) p_dbl->simplex_display = 1;
 	if (ebasis && ebasis->nstruct)
 		dbl_QSload_basis (p_dbl, ebasis);
@@ -1639,6 +1657,12 @@ int QSexact_solver (mpq_QSdata * p_mpq,
 			QSlog("Trying mpf with %u bits", precision);
 		}
 		p_mpf = QScopy_prob_mpq_mpf (p_mpq, "mpf_problem");
+		if (!p_mpf)
+		{
+			QSlog("could not make the mpf copy of the problem");
+			rval = 1;
+			goto CLEANUP;
+		}
 		if(DEBUG >= __QS_SB_VERB)
 		{
 			EGcallD(mpf_QSwrite_prob(p_mpf, "qsxprob.mpf.lp","LP"));
